@@ -103,7 +103,7 @@ func parseRec(c *Ctx, text string, claim []string, sub string) Rec {
 	return rec
 }
 
-var metaTexts = []string{"key", "Am", "txt", "hello world", "bpm", "120", "a;b", "x y ", "vel", "ff", "mtr", "3/4x", "é♭", "_[]"}
+var metaTexts = []string{"key", "Am", "txt", "hello world", "bpm", "120", "a;b", "x y ", "vel", "ff", "mtr", "3/4x", "é♭", "_[]", "大好き", "Život", "日本語", "Ľ", "x\x07y"}
 var plainSymbols = []string{"m", "m7", "dim", "aug", "maj7", "sus4", "m7b5", "mM7", "add9", "M7", "x]y", "m{1}", "o,"}
 var underSymbols = []string{"7", "9", "6", "7sus4", "b5", "C", "#11", "R", "m"}
 
@@ -117,7 +117,7 @@ func renderSentence(rng *rand.Rand, toks []string, triviaP float64) string {
 		if rng.Float64() < triviaP && prev != "METADATA" {
 			choices := []string{" ", "\t", "\n", "  ", " \n ", "\r\n", "\f", "\v", "\u00a0", "\u3000", "\u2028 ", "\u2003"}
 			if !inMeta && prev != "UNDERSCORE" {
-				choices = append(choices, ";c\n", " ; a [b] {c}\n", ";\n", ";a\n;b\n", "; one\n ; two\n;three\n", ";1\n;2\n;3\n;4\n;5\n", "\n;x\n\n;y\n")
+				choices = append(choices, ";c\n", " ; a [b] {c}\n", ";\n", ";a\n;b\n", "; one\n ; two\n;three\n", ";1\n;2\n;3\n;4\n;5\n", "\n;x\n\n;y\n", ";a\tb R[4]\n", ";\tv\r\n")
 			}
 			sb.WriteString(choices[rng.Intn(len(choices))])
 		}
@@ -191,6 +191,7 @@ func loadSentences(path string) [][]string {
 }
 
 const runeAlphabet = "CR/[]{}=,#b_1;\n mG2♭" // 20 representative runes
+const ctlAlphabet = "C[1]D \x1a\x07\x00\x1b;\n{=}" // with control characters: not white space, so they are symbol text
 
 func init() {
 	register("c04", Def{
@@ -268,6 +269,17 @@ func init() {
 				cases = append(cases, Case{"cmd": "strings", "text": sb.String()})
 			}
 			cases = append(cases, Case{"cmd": "strings", "text": ""})
+			for _, t := range []string{"C[1] D[1]\x1a\r\ngarbage", "C[1] \x07 E[1] F[1]", "C[1]\x00", "C[1]\x1bD[1]", "\x1aC[1]", "C[1]{a=b\x00c}"} {
+				cases = append(cases, Case{"cmd": "strings", "text": t})
+			}
+			ctl := []rune(ctlAlphabet)
+			for i := 0; i < nrand/3; i++ {
+				var sb strings.Builder
+				for j := 0; j < 3+rng.Intn(12); j++ {
+					sb.WriteRune(ctl[rng.Intn(len(ctl))])
+				}
+				cases = append(cases, Case{"cmd": "strings", "text": sb.String()})
+			}
 			// long texts (beyond any buffer size): k repetitions of a sentence, then a short suffix that decides acceptance
 			if len(sents) > 0 {
 				for i, reps := range []int{3000, 9000, 30000} {
@@ -282,7 +294,7 @@ func init() {
 		Exec: func(c *Ctx, k Case) []Rec {
 			if cs(k, "cmd") == "long" {
 				base, reps, suffix := cs(k, "base"), ci(k, "reps"), cs(k, "suffix")
-				text := strings.Repeat(base+" ", reps) + suffix
+				text := strings.Repeat(base+"\n", reps) + suffix // newline: a sentence may end inside a comment
 				r := c.crdEnv([]string{"text", "parse"}, []byte(text), nil, 120e9)
 				n := 0
 				var t yTree
